@@ -40,6 +40,10 @@ def cases(tier, seed):
                     if entry != 'qr' and (ti + ml + len(h)) % 2 and tier != 'thorough':
                         continue    # secondary entry points: half of the grid
                     yield {'entry': entry, 'hist': list(h), 'ts': ti, 'maxlen': ml, 'query': 'query' if len(h) % 2 else 'query2'}
+    # handlers written as plain functions (the documented contract is "returns an iterable"): failing at once, returning a list
+    for entry in ('qr', 'mwl', 'c_find'):
+        for h in ((3,), (0, 1), ()):
+            yield {'entry': entry, 'hist': list(h), 'ts': 0, 'maxlen': 16384, 'query': 'query', 'eager': True}
     # queries without a level / without any element reach the handler as they are, through every entry point
     for entry in ('qr', 'mwl', 'c_find'):
         for q in ('query-nolevel', 'empty'):
@@ -50,12 +54,17 @@ def cases(tier, seed):
                 yield {'entry': 'scu-alone', 'pending': list(pend), 'final': fin, 'ts': len(pend) % 3, 'maxlen': 16384}
 
 
-def _server_ae(ts, script, seen):
+def _server_ae(ts, script, seen, eager=False):
     from pynetdicom2 import applicationentity, sopclass, exceptions
 
     class FindAE(applicationentity.AE):
         def on_receive_find(self, context, ds):
             seen.append((context, ds))
+            if eager:
+                # a handler that is a plain function: it fails before it has anything to return, or returns a list
+                if 'EHE' in script:
+                    raise exceptions.EventHandlingError('handler failed before producing matches')
+                return list(script)
 
             def gen():
                 for item in script:
@@ -112,7 +121,7 @@ def run_case(case):
     if fails:
         script.append('EHE')
     seen = []
-    sae = _server_ae(ts, script if (len(case['hist']) % 2 or fails) else script_int, seen)
+    sae = _server_ae(ts, script if (len(case['hist']) % 2 or fails) else script_int, seen, eager=bool(case.get('eager')))
     if case['query'] == 'query-nolevel':
         query = dsgen.make('query')
         del query.QueryRetrieveLevel
